@@ -142,8 +142,12 @@ pub struct Step {
     pub followups: Vec<(TxId, Outcome)>,
     pub extracted: Vec<Arc<TxInfo>>,
     pub sink: Vec<SinkEvent>,
-    /// chain as the pool could see it while the operation ran
+    /// chain as the pool could see it while the operation ran (may lag the import)
     pub chain: ChainState,
+    /// the chain as it really is
+    pub truth: ChainState,
+    /// the view shown to the pool lags behind the last block import
+    pub lagging: bool,
 }
 
 impl Step {
@@ -263,6 +267,11 @@ pub struct Model {
     /// or preconfirmation) while they stayed pooled: the pool does not re-compute
     /// their cumulative subtree tip/gas in that case
     pub stale_stats: BTreeSet<TxId>,
+    /// inputs spent by committed transactions the pool itself knew (pooled or handed
+    /// out at import): the pool must refuse them even if its storage view lags
+    pub known_spent: BTreeSet<Key>,
+    /// subset: the committed transaction was pooled and never extracted locally
+    pub pooled_committed_inputs: BTreeSet<Key>,
     pub seq: u64,
 }
 
@@ -278,6 +287,8 @@ impl Model {
             reserve: Vec::new(),
             cache: LabelCache::new(cache_capacity),
             stale_stats: BTreeSet::new(),
+            known_spent: BTreeSet::new(),
+            pooled_committed_inputs: BTreeSet::new(),
             seq: 0,
         }
     }
@@ -313,7 +324,7 @@ impl Model {
         self.cache.forgot(k)
     }
 
-    fn input_keys(t: &TxInfo) -> Vec<Key> {
+    pub fn input_keys(t: &TxInfo) -> Vec<Key> {
         t.spend_order
             .iter()
             .map(|r| match r {
